@@ -17,4 +17,17 @@ def W : Nat := 18446744073709551616      -- 2^64
 /-- `bits.Mul64(a, b)` = (hi, lo). -/
 @[inline] def mul64 (a b : Nat) : Nat × Nat := ((a * b) / W, (a * b) % W)
 
+/-! amd64 instruction semantics used by the assembly translator (T3): value and carry/borrow flag. -/
+
+/-- `ADDQ src, dst`. -/
+@[inline] def addq (d s : Nat) : Nat × Nat := ((d + s) % W, (d + s) / W)
+/-- `ADCQ src, dst` (also `ADCXQ` on CF and `ADOXQ` on OF): add with the given carry flag. -/
+@[inline] def adcq (d s c : Nat) : Nat × Nat := ((d + s + c) % W, (d + s + c) / W)
+/-- `SUBQ src, dst`: CF is the borrow. -/
+@[inline] def subq (d s : Nat) : Nat × Nat := sub64 d s 0
+/-- `SBBQ src, dst`. -/
+@[inline] def sbbq (d s c : Nat) : Nat × Nat := sub64 d s c
+/-- `CMOVQcc src, dst`. -/
+@[inline] def cmov (c : Bool) (s d : Nat) : Nat := if c then s else d
+
 end I3.Word
